@@ -129,6 +129,11 @@ func refKeyRules(n *rc.Node) error {
 				return fmt.Errorf("Ed25519 x / d not 32 bytes")
 			}
 		}
+		// the other registered OKP curves have fixed key sizes too (RFC 7748 / RFC 8032): X25519 32,
+		// X448 56, Ed448 57 bytes; nothing longer is "within the curve's size"
+		if size := map[int64]int{4: 32, 5: 56, 7: 57}[crv]; size > 0 && (len(x) > size || len(d) > size) {
+			return fmt.Errorf("OKP coordinate longer than the size of curve %d", crv)
+		}
 	}
 	if a := n.Lookup(3); a != nil && algWant != 0 {
 		if ai, ok := a.Int64(); a.IsInt() && ok && ai != 0 && ai != algWant {
